@@ -5,6 +5,7 @@ package main
 import (
 	"fmt"
 	"go/ast"
+	"go/constant"
 	"go/token"
 	"go/types"
 	"strings"
@@ -170,6 +171,13 @@ func (en *Env) eval(e ast.Expr) *SV {
 		return en.evalSlice(n)
 	case *ast.CallExpr:
 		return en.evalCall(n)
+	case *ast.TypeAssertExpr:
+		v := en.evalT(n.X)
+		t := en.typeOf(n)
+		if _, isIface := t.Underlying().(*types.Interface); isIface {
+			return TV(v)
+		}
+		return TV(w.Unbox(t, w.iface.Get(v, 1)))
 	case *ast.CompositeLit:
 		t := en.typeOf(n)
 		st, ok := t.Underlying().(*types.Struct)
@@ -756,8 +764,32 @@ func (en *Env) evalOverlayCall(fobj *types.Func, decl *ast.FuncDecl, n *ast.Call
 		return TV(x.reinterpret(st, en.evalT(n.Args[0]), types.Typ[types.Float64], types.Typ[types.Uint64]))
 	case "isnan":
 		return TV(App("fp.isNaN", SBool, en.evalT(n.Args[0])))
+	case "field":
+		xt := en.typeOf(n.Args[0])
+		stt, ok := xt.Underlying().(*types.Struct)
+		if !ok {
+			unsupportedf("field() on non-struct %s", xt)
+		}
+		tv := en.info.Types[n.Args[1]]
+		if tv.Value == nil {
+			unsupportedf("field() needs a constant field name")
+		}
+		fname := constant.StringVal(tv.Value)
+		v := en.evalT(n.Args[0])
+		for i := 0; i < stt.NumFields(); i++ {
+			if stt.Field(i).Name() == fname {
+				return TV(w.RecordOfType(xt).Get(v, i))
+			}
+		}
+		unsupportedf("field %s not in %s", fname, xt)
 	case "eqv":
 		return TV(Eq(en.evalT(n.Args[0]), en.evalT(n.Args[1])))
+	case "atoiOK":
+		w.declFun("atoi_err", "(Str) Iface")
+		return TV(Eq(App("atoi_err", SIfc, en.evalT(n.Args[0])), w.Zero(types.Universe.Lookup("error").Type())))
+	case "parseFloatOK":
+		w.declFun("pfloat_err", "(Str) Iface")
+		return TV(Eq(App("pfloat_err", SIfc, en.evalT(n.Args[0])), w.Zero(types.Universe.Lookup("error").Type())))
 	case "fsame":
 		return TV(Eq(en.evalT(n.Args[0]), en.evalT(n.Args[1])))
 	case "fst2", "snd2":
